@@ -330,11 +330,43 @@ def masker_classes(repo: Repo) -> List[ClassInfo]:
 # ------------------------------------------------------------------------------------------
 # normalisation constants of the continuous effective kernel size
 
+def comp_at(comp: Term, idx: Term) -> Optional[Term]:
+    """``[f(j) for j in range(n)][idx]`` is ``f(idx)``: the element of a list comprehension over
+    range(n) (one generator, no filter) at a given index."""
+    if comp[0] != 'comp' or comp[1] not in ('list', 'listcomp', 'tuple') and \
+            not str(comp[1]).startswith('list'):
+        return None
+    if len(comp[2]) != 1 or len(comp[3]) != 1 or comp[3][0][2]:
+        return None
+    it = comp[3][0][1]
+    if not (is_call(it, 'builtins.range') and len(it[2]) == 1):
+        return None
+    var = [x for x in subterms(comp[2][0]) if x[0] == 'elem' and x[1] == it]
+    if len(set(var)) > 1:
+        return None
+    return poly.substitute(comp[2][0], {var[0]: idx}) if var else comp[2][0]
+
+
+def reduce_comp_subs(t):
+    """every ``[f(j) for j in range(n)][i]`` inside t replaced by ``f(i)``"""
+    if isinstance(t, tuple):
+        t = tuple(reduce_comp_subs(x) for x in t)
+        if t and t[0] == 'sub' and isinstance(t[1], tuple) and t[1] and t[1][0] == 'comp':
+            r = comp_at(t[1], t[2])
+            if r is not None:
+                return r
+    return t
+
+
 def _deficit_zero(c: Term, env: Dict[Term, Term]) -> Optional[bool]:
     """Is the non-negative count ``c`` certainly 0 (True) / certainly > 0 (False) under the
     substitution ``env``?  Loop-accumulated counts appear as the generic summand
     ``0 + (0 if cond else 1)`` whose inner index stays free: the sum is zero iff the summand
     is zero for an arbitrary index."""
+    if c[0] == 'sub' and c[1][0] == 'comp':
+        r = comp_at(c[1], c[2])
+        if r is not None:
+            return _deficit_zero(r, env)
     k = poly.is_const(poly.to_poly(c, env))
     if k is not None:
         return k == 0
@@ -491,11 +523,11 @@ def _norm_shape(best: Term, conds=()):
         if len(t[3]) != 1 or len(t[2]) != 1 or t[3][0][2]:
             raise AnchorError('nested/filtered comprehension')
         it = t[3][0][1]
-        e = t[2][0]
+        e = reduce_comp_subs(t[2][0])
         idx = ev.find_elem(e, it)
         n = ev.range_len(it)
     elif t[0] == 'list' and len(t[1]) == 1:
-        e = t[1][0]
+        e = reduce_comp_subs(t[1][0])
         elems = ev.elems_of(e)
         for a, _pol in conds:
             elems += [x for x in ev.elems_of(a) if x not in elems]
